@@ -3,7 +3,7 @@ import ast
 
 import z3
 
-from .sorts import (PyNav, PyDict, PyProperty, ArrT, SV, PyVal, PyTuple, Closure, BoundMethod, ModuleRef, ClassRef, SpecFn, INT, BOOL, STR, REAL, VAL, NONE,
+from .sorts import (PyTypeOf, PyNav, PyDict, PyProperty, ArrT, SV, PyVal, PyTuple, Closure, BoundMethod, ModuleRef, ClassRef, SpecFn, INT, BOOL, STR, REAL, VAL, NONE,
                     NONE_V, RefT, SeqT, SetT, MapT, TupT, Val, Ref, null, zsort, fresh, mk_bool, mk_int, mk_str, fresh_name)
 from .values import (mem, nth, OutsideSubset, coerce, box, unbox, py_eq, truthy, ite, tup_items, empty_map, join_sort, is_ref,
                      int_to_str, default_term)
@@ -536,6 +536,12 @@ class ExprMixin(object):
             if f is None:
                 raise OutsideSubset('property without %s' % attr)
             return f
+        if isinstance(base, PyTypeOf):
+            if attr == '__name__' and 'kind_of' in self.reg.uninterp:
+                # the class of a model instance is named by the key letters of its metaclass: the abstract kind_of
+                kf = z3.Function('u_kind_of', Ref, z3.StringSort())
+                return SV(STR, kf(coerce(base.obj, RefT('Class')).t))
+            raise OutsideSubset('attribute %s of a type object' % attr)
         if isinstance(base, PyDict) and attr in ('items', 'keys', 'values'):
             return BoundMethod(base, attr)
         if isinstance(base, PyVal):
